@@ -163,6 +163,29 @@ def check_scalar_keys(keys, arrays, common, conv_name, acc):
     return True
 
 
+def check_byteorder(keys, arrays, common, acc):
+    """Row-id arrays that hold the right numbers in the OTHER byte order (data read from a big-endian source): a writer may refuse them, but a
+    file it writes must be the documented little-endian layout."""
+    from catii.indxio import IndxIO
+
+    if not any(len(a) for a in arrays):
+        return False
+    case = {"keys": keys, "arrays": arrays, "common": common, "rowid_byteorder": "big-endian"}
+    entries = {tuple(k): numpy.array(a, dtype=">u4") for k, a in zip(keys, arrays)}
+    path = os.path.join(indx.scratch_dir(), "bo-%d.indx" % os.getpid())
+    try:
+        with open(path, "wb") as f:
+            IndxIO.save(f, entries, common, numpy.dtype(numpy.uint32))
+        blob = open(path, "rb").read()
+    except Exception:  # noqa
+        acc.count("byteorder_refused")
+        return True
+    mine = indx.encode(keys, arrays, common)
+    if blob != mine:
+        acc.violation("bytes:differ", case, "library %s != documented layout %s" % (blob.hex()[:400], mine.hex()[:400]))
+    return True
+
+
 SCALAR_TYPES = ["uint8", "uint16", "uint32", "uint64", "int64", "int32"]
 
 
@@ -248,6 +271,8 @@ def run_block(family, p, acc):
     for ci, (keys, arrays, common) in enumerate(indx.cases_of_block(p)):
         if ci % 5 == 0 and check_scalar_keys(keys, arrays, common, SCALAR_TYPES[(ci // 5) % len(SCALAR_TYPES)], acc):
             acc.count("scalar_key_files")
+        if ci % 7 == 3 and check_byteorder(keys, arrays, common, acc):
+            acc.count("byteorder_files")
         n_alt = check_case(keys, arrays, common, acc)
         acc.count("independent_files_loaded", n_alt)
         acc.case((tuple(keys), tuple(map(tuple, arrays)), common), nontrivial=nontrivial(keys, arrays, common) or n_alt > 1,
@@ -258,7 +283,9 @@ def replay(case, site=None):
     from ..core import Acc
 
     acc = Acc(ID, [], stop_at_first=False)
-    if "scalar_type" in case:
+    if "rowid_byteorder" in case:
+        check_byteorder([tuple(k) for k in case["keys"]], case["arrays"], case["common"], acc)
+    elif "scalar_type" in case:
         check_scalar_keys([tuple(k) for k in case["keys"]], case["arrays"], case["common"], case["scalar_type"], acc)
     elif "mixed_lengths" in case:
         lengths = case["mixed_lengths"]
